@@ -2,7 +2,7 @@
    Only statements closed by [exact <lemma>] and their assumptions.                    *)
 From Coq Require Import ZArith Reals List.
 From FF Require Import Base.Ops Inst.RInst Base.RAlg Base.FMat Model.Numeric Model.Decay Model.Cumulant
-     Model.Tie.C08 Proofs.Trapz Proofs.Decay Proofs.TraceId Proofs.PauliOnb Proofs.InfidPos.
+     Model.Tie.C08 Proofs.Trapz Proofs.Decay Proofs.DecayPrefix Proofs.TraceId Proofs.PauliOnb Proofs.InfidPos Proofs.PcWitness.
 (* the correspondence check's observables and constants are part of the cone rebuilt by ./check *)
 From FF Require Model.Consts Inst.Param Inst.EnclosureC08 Corr.Agree Corr.Obs Corr.ObsC08.
 Import ListNotations.
@@ -63,75 +63,108 @@ Theorem C08_trace_identity : forall d (basis : list MatR),
 Proof. exact trace_identity. Qed.
 Print Assumptions C08_trace_identity.
 
-(* infidelity on the non-traceless branch = - tr K / d^2 *)
-Theorem C08_infidelity_general_is_cumulant_trace : forall d (basis : list MatR), (0 < d)%nat ->
+(* infidelity = - tr K / d^2 for EVERY complete orthonormal Hermitian basis, traceless or not (after fix 2891db3:
+   fidelity filter function minus the rank-one identity term) *)
+Theorem C08_infidelity_is_cumulant_trace : forall d (basis : list MatR), (0 < d)%nat ->
   let n := length basis in let Cb := fun k => toF (nthm basis k) in
   basis_herm d n Cb -> basis_orthonormal d n Cb -> basis_complete d n Cb ->
   forall na nk no (Bm : A3r) idx (sp : spectrumR) omega, nk = n -> idx_ok na idx -> length omega = no ->
   forall i j Dl, (i < length idx)%nat -> (j < length idx)%nat -> (is_cross sp = false -> i = j) ->
-  nth (lead_pos sp (length idx) i j) (infidelity_total RO d false na nk no Bm basis idx sp omega) 0 =
+  nth (lead_pos sp (length idx) i j) (infidelity_total RO d na nk no Bm basis idx sp omega) 0 =
   - sumn' n (fun m => cumulant_general_fn RO n (a4get RO (four_traces_arr RO d (pair_products RO d basis) n)) false
                         (rmbuild nk nk (fun k l => Gamma Bm Bm idx sp no omega i j k l)) Dl m m) / (INR d * INR d).
-Proof. exact infidelity_general_is_cumulant_trace. Qed.
-Print Assumptions C08_infidelity_general_is_cumulant_trace.
+Proof. exact infidelity_is_cumulant_trace. Qed.
+Print Assumptions C08_infidelity_is_cumulant_trace.
+(* its value in decay amplitudes (needs only a Hermitian basis): (d sum_k Gamma_kk - sum_kl Gamma_kl trC_k trC_l)/d^2 *)
+Theorem C08_infidelity_entry : forall d (basis : list MatR), (0 < d)%nat ->
+  basis_herm d (length basis) (fun k => toF (nthm basis k)) ->
+  forall na nk no (Bm : A3r) idx (sp : spectrumR) omega, nk = length basis -> idx_ok na idx -> length omega = no ->
+  forall i j, (i < length idx)%nat -> (j < length idx)%nat -> (is_cross sp = false -> i = j) ->
+  nth (lead_pos sp (length idx) i j) (infidelity_total RO d na nk no Bm basis idx sp omega) 0 =
+  (INR d * trG basis (rmbuild nk nk (fun k l => Gamma Bm Bm idx sp no omega i j k l))
+   - GT d basis (rmbuild nk nk (fun k l => Gamma Bm Bm idx sp no omega i j k l))) / (INR d * INR d).
+Proof. exact infidelity_entry. Qed.
+Print Assumptions C08_infidelity_entry.
 
-(* traceless branch: what the code computes is - tr K / d^2 PLUS the identity component *)
-Theorem C08_infidelity_traceless_excess : forall d (basis : list MatR), (0 < d)%nat ->
+(* the removed trace-tensor branch computed the same value (pre-fix, non-traceless bases) ... *)
+Theorem C08_infidelity_general_prefix_is_cumulant_trace : forall d (basis : list MatR), (0 < d)%nat ->
   let n := length basis in let Cb := fun k => toF (nthm basis k) in
   basis_herm d n Cb -> basis_orthonormal d n Cb -> basis_complete d n Cb ->
   forall na nk no (Bm : A3r) idx (sp : spectrumR) omega, nk = n -> idx_ok na idx -> length omega = no ->
   forall i j Dl, (i < length idx)%nat -> (j < length idx)%nat -> (is_cross sp = false -> i = j) ->
-  nth (lead_pos sp (length idx) i j) (infidelity_total RO d true na nk no Bm basis idx sp omega) 0 =
+  nth (lead_pos sp (length idx) i j) (infidelity_total_prefix d false na nk no Bm basis idx sp omega) 0 =
+  - sumn' n (fun m => cumulant_general_fn RO n (a4get RO (four_traces_arr RO d (pair_products RO d basis) n)) false
+                        (rmbuild nk nk (fun k l => Gamma Bm Bm idx sp no omega i j k l)) Dl m m) / (INR d * INR d).
+Proof. exact infidelity_general_prefix_is_cumulant_trace. Qed.
+(* ... while the pre-fix traceless branch was - tr K / d^2 PLUS the identity component ... *)
+Theorem C08_infidelity_traceless_prefix_excess : forall d (basis : list MatR), (0 < d)%nat ->
+  let n := length basis in let Cb := fun k => toF (nthm basis k) in
+  basis_herm d n Cb -> basis_orthonormal d n Cb -> basis_complete d n Cb ->
+  forall na nk no (Bm : A3r) idx (sp : spectrumR) omega, nk = n -> idx_ok na idx -> length omega = no ->
+  forall i j Dl, (i < length idx)%nat -> (j < length idx)%nat -> (is_cross sp = false -> i = j) ->
+  nth (lead_pos sp (length idx) i j) (infidelity_total_prefix d true na nk no Bm basis idx sp omega) 0 =
   - sumn' n (fun m => cumulant_general_fn RO n (a4get RO (four_traces_arr RO d (pair_products RO d basis) n)) false
                         (rmbuild nk nk (fun k l => Gamma Bm Bm idx sp no omega i j k l)) Dl m m) / (INR d * INR d)
   + GT d basis (rmbuild nk nk (fun k l => Gamma Bm Bm idx sp no omega i j k l)) / (INR d * INR d).
-Proof. exact infidelity_traceless_excess. Qed.
-Print Assumptions C08_infidelity_traceless_excess.
-
-(* ... hence "infidelity = - tr K / d^2 for every basis and every Hermitian noise operator" is
-   REFUTED on the traceless branch (finding about /repo: traceless basis, noise operator with trace) *)
-Theorem C08_traceless_branch_refuted :
+Proof. exact infidelity_traceless_prefix_excess. Qed.
+Print Assumptions C08_infidelity_traceless_prefix_excess.
+(* ... REFUTED as an identity (fixed defect: traceless basis, noise operator with trace) *)
+Theorem C08_traceless_branch_prefix_refuted :
   exists (basis : list MatR) (Bm : A3r) (sp : spectrumR) (omega : list R),
     let d := 2%nat in let n := length basis in let Cb := fun k => toF (nthm basis k) in
     basis_herm d n Cb /\ basis_orthonormal d n Cb /\ basis_complete d n Cb /\
     (forall k, (1 <= k < n)%nat -> ftr d (Cb k) = 0c) /\
     let G := rmbuild n n (fun k l => Gamma Bm Bm [0%nat] sp 2 omega 0 0 k l) in
     let Tr := a4get RO (four_traces_arr RO d (pair_products RO d basis) n) in
-    nth 0 (infidelity_total RO d true 1 n 2 Bm basis [0%nat] sp omega) 0 <>
+    nth 0 (infidelity_total_prefix d true 1 n 2 Bm basis [0%nat] sp omega) 0 <>
     - sumn' n (fun m => cumulant_general_fn RO n Tr false G G m m) / (INR d * INR d).
-Proof. exact traceless_branch_refuted. Qed.
-Print Assumptions C08_traceless_branch_refuted.
+Proof. exact traceless_branch_prefix_refuted. Qed.
+Print Assumptions C08_traceless_branch_prefix_refuted.
 
-
-(* pc_infid_sum: the pulse-correlation infidelities sum to the (traceless-branch) total of the summed control matrix *)
-Theorem C08_pc_infid_sum : forall d na nk no (Bpc : list A3r) idx (sp : spectrumR) omega i j,
-  idx_ok na idx -> length omega = no ->
-  (i < length idx)%nat -> (j < length idx)%nat -> (is_cross sp = false -> i = j) ->
+(* pc_infid_sum: with the cached pulse-correlation control matrix the (corrected) pulse-correlation infidelities
+   sum to the total infidelity of the summed control matrix, for every Hermitian basis *)
+Theorem C08_pc_infid_sum : forall d (basis : list MatR), (0 < d)%nat ->
+  basis_herm d (length basis) (fun k => toF (nthm basis k)) ->
+  forall na nk no (Bpc : list A3r) idx (sp : spectrumR) omega, nk = length basis -> idx_ok na idx -> length omega = no ->
+  forall i j, (i < length idx)%nat -> (j < length idx)%nat -> (is_cross sp = false -> i = j) ->
   sumn' (length Bpc) (fun g => sumn' (length Bpc) (fun h =>
-     nth (lead_pos sp (length idx) i j) (nth h (nth g (infidelity_pc RO d na nk no Bpc idx sp omega) []) []) 0)) =
-  nth (lead_pos sp (length idx) i j)
-      (infid_of_ff RO d (infid_ff_traceless RO na nk no (cm_pc_sum RO na nk no Bpc)) idx sp no omega) 0.
+     nth (lead_pos sp (length idx) i j) (nth h (nth g (infidelity_pc RO d true na nk no Bpc basis idx sp omega) []) []) 0)) =
+  nth (lead_pos sp (length idx) i j) (infidelity_total RO d na nk no (cm_pc_sum RO na nk no Bpc) basis idx sp omega) 0.
 Proof. exact pc_infid_sum. Qed.
 Print Assumptions C08_pc_infid_sum.
+(* WITHOUT the cached control matrix (only the pulse-correlation filter function left, e.g. after cleanup('greedy'))
+   the branch is uncorrected: the sum exceeds the total by the identity component ... *)
+Theorem C08_pc_uncached_excess : forall d (basis : list MatR), (0 < d)%nat ->
+  basis_herm d (length basis) (fun k => toF (nthm basis k)) ->
+  forall na nk no (Bpc : list A3r) idx (sp : spectrumR) omega, nk = length basis -> idx_ok na idx -> length omega = no ->
+  forall i j, (i < length idx)%nat -> (j < length idx)%nat -> (is_cross sp = false -> i = j) ->
+  sumn' (length Bpc) (fun g => sumn' (length Bpc) (fun h =>
+     nth (lead_pos sp (length idx) i j) (nth h (nth g (infidelity_pc RO d false na nk no Bpc basis idx sp omega) []) []) 0)) =
+  nth (lead_pos sp (length idx) i j) (infidelity_total RO d na nk no (cm_pc_sum RO na nk no Bpc) basis idx sp omega) 0
+  + GT d basis (rmbuild nk nk (fun k l => Gamma (cm_pc_sum RO na nk no Bpc) (cm_pc_sum RO na nk no Bpc) idx sp no omega i j k l))
+    / (INR d * INR d).
+Proof. exact pc_uncached_excess. Qed.
+(* ... REFUTED as "pulse-correlation infidelities sum to the total" on that path (open finding) *)
+Theorem C08_pc_uncached_refuted :
+  exists (basis : list MatR) (Bpc : list A3r) (sp : spectrumR) (omega : list R),
+    let d := 2%nat in let n := length basis in let Cb := fun k => toF (nthm basis k) in
+    basis_herm d n Cb /\ basis_orthonormal d n Cb /\ basis_complete d n Cb /\
+    sumn' (length Bpc) (fun g => sumn' (length Bpc) (fun h =>
+       nth 0 (nth h (nth g (infidelity_pc RO d false 1 n 2 Bpc basis [0%nat] sp omega) []) []) 0)) <>
+    nth 0 (infidelity_total RO d 1 n 2 (cm_pc_sum RO 1 n 2 Bpc) basis [0%nat] sp omega) 0.
+Proof. exact pc_uncached_refuted. Qed.
+Print Assumptions C08_pc_uncached_refuted.
 
-(* infid_nonneg: positive-semidefinite spectrum, non-decreasing grid => total infidelity >= 0, both branches *)
-Theorem C08_infid_nonneg_traceless : forall d na nk no (Bm : A3r) idx (sp : spectrumR) omega,
-  (0 < d)%nat -> idx_ok na idx -> length omega = no -> grid_nondecreasing no omega ->
-  spectrum_psd sp (leads sp (length idx)) no ->
-  forall basis : list MatR, 0 <= sumlist RO (infidelity_total RO d true na nk no Bm basis idx sp omega).
-Proof. exact infid_nonneg_traceless. Qed.
-Print Assumptions C08_infid_nonneg_traceless.
-
-Theorem C08_infid_nonneg_general : forall d na nk no (Bm : A3r) idx (sp : spectrumR) omega,
+(* infid_nonneg: positive-semidefinite spectrum, non-decreasing grid => total infidelity >= 0 *)
+Theorem C08_infid_nonneg : forall d na nk no (Bm : A3r) idx (sp : spectrumR) omega,
   (0 < d)%nat -> idx_ok na idx -> length omega = no -> grid_nondecreasing no omega ->
   spectrum_psd sp (leads sp (length idx)) no ->
   forall basis : list MatR, nk = length basis ->
   let n := length basis in let Cb := fun k => toF (nthm basis k) in
-  basis_herm d n Cb -> basis_orthonormal d n Cb -> basis_complete d n Cb ->
-  0 <= sumlist RO (infidelity_total RO d false na nk no Bm basis idx sp omega).
-Proof. exact infid_nonneg_general. Qed.
-Print Assumptions C08_infid_nonneg_general.
-
+  basis_herm d n Cb -> basis_complete d n Cb ->
+  0 <= sumlist RO (infidelity_total RO d na nk no Bm basis idx sp omega).
+Proof. exact infid_nonneg. Qed.
+Print Assumptions C08_infid_nonneg.
 Example C08_psd_hypotheses_satisfiable : spectrum_psd spw_ex (leads spw_ex 1) 2 /\ grid_nondecreasing 2 [0; 1].
 Proof. exact psd_example. Qed.
 
